@@ -7,6 +7,7 @@ from ..values import canon
 from . import c10
 
 ID = 'C09'
+SKIP_VALIDATION_IN_KNOWN_REGIONS = True
 EXPLANATION = ('Product templates build the same description twice in one symbolic run.  The interpreter\'s HashMap/HashSet model gives '
                'the first build insertion order and the second build an iteration order chosen nondeterministically: for every map '
                'that pyxis iterates (the type registry behind unresolved()/resolved(), the module map behind values_mut()) every '
